@@ -93,6 +93,11 @@ func (e *JSchemaError) SetIncorrectUserType(s string) {
 	e.incorrectUserType = s
 }
 
+// File returns the file whose text the error position refers to.
+func (e JSchemaError) File() *fs.File {
+	return e.file
+}
+
 func (e *JSchemaError) SetFile(file *fs.File) {
 	e.file = file
 }
